@@ -193,8 +193,8 @@ def register_extractors(rng):
 
     def expect_fields(exc):
         for klass in type(exc).__mro__:
-            if klass in registry:
-                name = registry[klass]
+            name = next((n for k, n in registry.items() if k is klass), None)  # (by identity: a class object need not be hashable)
+            if name is not None:
                 return {"ext_" + name: [name, str(getattr(exc, "code", None))], "ext_by": name}
             if klass is OSError:
                 return {"errno": exc.errno}
